@@ -342,6 +342,8 @@ impl QuicMultiplexer {
                     }
                     Ok(HandshakeStatus::Complete) => {
                         self.deadlines.remove(&header.dcid);
+                        #[cfg(feature = "verif")]
+                        self.verif_timer_op(format!("remove {}", utils::hex_dump(&header.dcid)));
                         let conn = self
                             .connections
                             .remove(&header.dcid)
@@ -669,10 +671,37 @@ impl QuicMultiplexer {
         duration: Duration,
     ) {
         let deadline = Instant::now() + duration;
+        #[cfg(feature = "verif")]
+        let verif_conn = utils::hex_dump(&conn_id);
         self.deadlines.insert(conn_id, deadline);
         if self.closest_deadline.is_none_or(|x| x > deadline) {
             self.closest_deadline = Some(deadline);
         }
+        #[cfg(feature = "verif")]
+        self.verif_timer_op(format!(
+            "arm {} {}",
+            verif_conn,
+            crate::verif::hooks::instant_us(deadline)
+        ));
+    }
+
+    /// Records one operation on the timer bookkeeping together with the state it leaves
+    #[cfg(feature = "verif")]
+    fn verif_timer_op(&self, op: String) {
+        let mut all: Vec<String> = self
+            .deadlines
+            .iter()
+            .map(|(k, v)| format!("{}@{}", utils::hex_dump(k), crate::verif::hooks::instant_us(*v)))
+            .collect();
+        all.sort();
+        crate::verif::hooks::note_quic_timer_op(format!(
+            "{} => closest={} deadlines=[{}]",
+            op,
+            self.closest_deadline
+                .map(|x| crate::verif::hooks::instant_us(x).to_string())
+                .unwrap_or_else(|| "-".to_string()),
+            all.join(",")
+        ));
     }
 
     fn process_timeouts(&mut self) {
@@ -685,6 +714,10 @@ impl QuicMultiplexer {
             .map(|(conn_id, _)| conn_id.clone())
             .collect();
 
+        #[cfg(feature = "verif")]
+        let mut verif_rearmed: Vec<String> = vec![];
+        #[cfg(feature = "verif")]
+        let verif_any = !timedout.is_empty();
         for conn_id in timedout {
             self.deadlines.remove(&conn_id);
 
@@ -713,11 +746,25 @@ impl QuicMultiplexer {
                 }
             }
             if let Some(timeout) = quic_conn.timeout() {
+                #[cfg(feature = "verif")]
+                verif_rearmed.push(format!(
+                    "{}@{}",
+                    utils::hex_dump(&conn_id),
+                    crate::verif::hooks::instant_us(now + timeout)
+                ));
                 self.deadlines.insert(conn_id, now + timeout);
             }
         }
 
         self.closest_deadline = self.deadlines.values().min().cloned();
+        #[cfg(feature = "verif")]
+        if verif_any || self.closest_deadline.is_some() {
+            self.verif_timer_op(format!(
+                "tick {} rearm=[{}]",
+                crate::verif::hooks::instant_us(now),
+                verif_rearmed.join(",")
+            ));
+        }
     }
 
     fn on_socket_message(&mut self, message: SocketMessage) -> io::Result<()> {
@@ -757,6 +804,8 @@ impl QuicMultiplexer {
 
         for conn_id in closed {
             self.deadlines.remove(&conn_id);
+            #[cfg(feature = "verif")]
+            self.verif_timer_op(format!("remove {}", utils::hex_dump(&conn_id)));
             if let Some(Connection::Established(c)) = self.connections.remove(&conn_id) {
                 let _ = c.socket_tx.try_send(MultiplexerMessage::Close);
             }
